@@ -199,8 +199,16 @@ def run(F, R, tier):
                 for s in B.blocks[b]["stmts"]:
                     if s["k"] == "assign" and s["lhs"]["l"] == 0 and s["rv"]["k"] == "use" and s["rv"]["o"]["k"] == "const":
                         ret = bool(s["rv"]["o"].get("val"))
+                    o = None
                     if s["k"] == "assign" and s["rv"]["k"] == "agg" and s["rv"]["ak"] == "tuple" and len(s["rv"]["ops"]) == 2:
                         o = s["rv"]["ops"][1]
+                    elif s["k"] == "assign" and s["lhs"]["p"] == ["*"] and s["rv"]["k"] == "use":
+                        # in-place spelling: `*count = ..` through the &mut handed out by get_mut (the count is field 1 of the entry)
+                        slot = B.origins({"k": "copy", "p": {"l": s["lhs"]["l"], "p": []}})
+                        prm = [x for x in slot if x[0] == "param"]   # (values stored through the reference show up as const / bin origins)
+                        if prm and all(x[1] == "self" and x[2][:1] == ("state_map",) and x[2][-1:] == ("1",) for x in prm):
+                            o = s["rv"]["o"]
+                    if o is not None:
                         if o["k"] == "const":
                             ins = "const:%s" % o.get("val")
                         else:
